@@ -77,3 +77,23 @@ def validate(sessions, workdir, nshards=None, timeout=3600, module="Trace_Solver
     if missing:
         raise RuntimeError("no verdict for sessions %s" % missing[:10])
     return verdicts, stats
+
+
+def record_validate(sessions, repo, workdir, budget=30.0, long_budget=300.0, timeout=6 * 3600):
+    """record + validate; a session whose verdict contains a timeout that the specification
+    does not allow (clause C06.Timeout) is re-run ALONE with a long budget before the
+    timeout is believed: a loaded machine must not turn a slow solve into a violation."""
+    record(sessions, repo, budget=budget)
+    verdicts, st = validate(sessions, workdir, timeout=timeout)
+    slow = [s for s in sessions if any(c.startswith("C06.Timeout") for c in verdicts[s["tid"]]["fails"])]
+    if slow:
+        for s in slow:
+            s["budget"] = long_budget
+            s.pop("events", None)
+        record(slow, repo, budget=long_budget, nproc=8)
+        v2, st2 = validate(slow, workdir, timeout=timeout)
+        verdicts.update(v2)
+        st["distinct"] += st2["distinct"]
+        st["generated"] += st2["generated"]
+    st["rerun_with_long_budget"] = len(slow)
+    return verdicts, st
